@@ -5,4 +5,10 @@ import (
 	"verifharness/pipeline"
 )
 
-func main() { emit.Main("C12", pipeline.RunFor("C12")) }
+func main() {
+	// the profile runs in a worker process (a crash of the pipeline becomes a finding)
+	if pipeline.ChildMain() {
+		return
+	}
+	emit.Main("C12", pipeline.Supervised("C12"))
+}
